@@ -15,7 +15,7 @@ C12 — property theorems about the state machine `CBV.C12` (Model/C12.lean), fo
 * `T_C12_backport_single_move`  after one move_to: only corners that sat on the moved vertex change;
 * `T_C12_wf_run`          the representation invariant holds along every legal history.
 -/
-import CBV.Lemmas.C12d
+import CBV.Lemmas.C12Tie
 
 namespace CBV.C12
 
@@ -305,6 +305,82 @@ theorem T_C12_history (h : List Step) (hl : Legal {} h) :
   exact ⟨hw.1, aligned_RT s hw.1, RT_idem s, T_C12_write_idem_file s⟩
 
 end
+
+/-! ### the model functions are the statements of the current source (regenerated by `cbv/tables/c12.py`) -/
+
+/-- `Mesh.clear` of the source — its `self.<list>.clear()` statements in order, each with the statements of that list's
+    `clear()` — empties exactly what the model's `clear` empties: `Mesh.assembled`, vertices and duplicated entries, edges,
+    blocks, faces, and the *sides* of every patch (the entries with their types and settings stay). -/
+theorem T_C12_tie_clear (m : Mesh) : clearBy CBV.Gen.c12ClearCalls CBV.Gen.c12ClearOther m = some (clear m) := by
+  rfl
+
+/-- the file is the concatenation of the `output.write(...)` calls of `Mesh.write` in source order -/
+theorem T_C12_tie_render (m : Mesh) : renderBy CBV.Gen.c12WriteSections m = some (render m) := by
+  simp [renderBy, CBV.Gen.c12WriteSections, sectionOf, render, List.mapM_cons, List.mapM_nil]
+
+/-- `Mesh.backport` of the source, statement by statement (guard, the loop over `zip(blocks, assembled)` with the two
+    `Face.update` calls, `clear()`, `assemble()`), is the model's `backport` -/
+theorem T_C12_tie_backport (m : Mesh) : backportBy (methodStmts "Mesh.backport") m = some (backport m) := by
+  have h : methodStmts "Mesh.backport" =
+      [("if not self.is_assembled:", ["    raise RuntimeError('Cannot backport non-assembled mesh')"]),
+       ("for block, op in zip(self.blocks, self.assembled):",
+        ["    vertices = [vertex.position for vertex in block.vertices]", "    op.bottom_face.update(vertices[:4])",
+         "    op.top_face.update(vertices[4:])"]),
+       ("self.clear()", []), ("self.assemble()", [])] := by decide
+  rw [h]
+  unfold backport
+  by_cases ha : isAssembled m = true <;> simp [backportBy, backportEffect, ha]
+
+/-- `Mesh.write` of the source (assemble when not assembled, `grade()` = the four statements of `Mesh.grade`, then the
+    sections) is the model's `write`: same state afterwards, same file or error -/
+theorem T_C12_tie_write (m : Mesh) :
+    writeBy CBV.Gen.c12WritePre (methodStmts "Mesh.grade") CBV.Gen.c12WriteSections m = some (write m) := by
+  have hg : methodStmts "Mesh.grade" =
+      [("if not self.is_assembled:", ["    raise RuntimeError('Cannot grade a mesh before it is assembled')"]),
+       ("self.block_list.grade_blocks()", []), ("self.block_list.propagate_gradings()", []),
+       ("self.block_list.check_consistency()", [])] := by decide
+  have hp : CBV.Gen.c12WritePre =
+      [("if not self.is_assembled:", ["    self.assemble()"]),
+       ("if debug_path is not None:", ["    write_vtk(debug_path, self.vertex_list.vertices, self.block_list.blocks)"]),
+       ("self.grade()", [])] := by decide
+  rw [hg, hp]
+  exact writeBy_eq m
+
+/-- the one-statement methods and the skeleton of `Mesh.assemble` (two nested loops, the skip of deleted operations with
+    `continue`, vertices → block → edges → chops → cell zone → block list → `assembled` → patches → faces) are literally
+    what the model mirrors; `is_assembled` looks at the vertex list; `Face.update` assigns the positions in order;
+    `grade_blocks` resets every axis before grading -/
+theorem T_C12_tie_statements :
+    methodStmts "Mesh.delete" = [("self.deleted.add(operation)", [])] ∧
+    methodStmts "Mesh.add" = [("self.depot.append(entity)", [])] ∧
+    methodStmts "Mesh.is_assembled" = [("return len(self.vertex_list.vertices) > 0", [])] ∧
+    methodStmts "Mesh.add_geometry" = [("self.geometry_list.add(geometry)", [])] ∧
+    methodStmts "Mesh.modify_patch" = [("self.patch_list.modify(name, kind, settings)", [])] ∧
+    methodStmts "Mesh.set_default_patch" = [("self.patch_list.set_default(name, kind)", [])] ∧
+    methodStmts "Mesh.merge_patches" = [("self.patch_list.merge(master, slave)", [])] ∧
+    methodStmts "PatchList.modify" = [("patch = self.get(name)", []), ("patch.kind = kind", []),
+      ("if settings is not None:", ["    patch.settings = settings"]), ("self.modified.add(name)", [])] ∧
+    methodStmts "Face.update" = [("for i, point in enumerate(points):",
+      ["    self.points[i].position = np.array(point, dtype=constants.DTYPE)"])] ∧
+    methodStmts "BlockList.grade_blocks" = [("for block in self.blocks:", ["    for axis in block.axes:", "        axis.wires.reset()"]),
+      ("for block in self.blocks:", ["    block.grade()"])] ∧
+    (methodStmts "Mesh.assemble").head? = some ("for entity in self.depot:",
+      ["    if isinstance(entity, Operation):", "        operations = [entity]", "    else:",
+       "        operations = entity.operations", "    for operation in operations:",
+       "        if operation in self.deleted:", "            continue",
+       "        vertices = self._add_vertices(operation)",
+       "        block = Block(len(self.block_list.blocks), vertices)", "        if not skip_edges:",
+       "            for data in self.edge_list.add_from_operation(vertices, operation):",
+       "                block.add_edge(*data)", "        for axis in get_args(AxisType):",
+       "            for chop in operation.chops[axis]:", "                block.chop(axis, chop)",
+       "        block.cell_zone = operation.cell_zone", "        self.block_list.add(block)",
+       "        self.assembled.append(operation)", "        self.patch_list.add(vertices, operation)",
+       "        self.face_list.add(vertices, operation)", "    if entity.geometry is not None:",
+       "        self.add_geometry(entity.geometry)"]) ∧
+    -- what `Mesh.__init__` creates: the state components of the model, and `settings`, which no call of a history touches
+    CBV.Gen.c12InitAttrs.map (·.1) = ["depot", "deleted", "assembled", "vertex_list", "edge_list", "block_list",
+      "patch_list", "face_list", "geometry_list", "settings"] := by
+  decide
 
 /-! ### non-vacuity: a concrete history satisfies the hypotheses -/
 
